@@ -48,7 +48,9 @@ func vtNewMcrew(r *vtRun) vtDriver {
 		d.h.Lock()
 		r.log(vtEvent{K: "fire", T: t, T1: t, Lbl: lbl, In: -1}, false)
 		d.h.Unlock()
-		d.Issue(r.opsOf(lbl), lbl)
+		// requests made by the handler travel under the context the handler was given (Service.Process ->
+		// toTimers -> Timers.Add does exactly that)
+		d.issue(ctx, r.opsOf(lbl), lbl)
 		return nil
 	}
 	d.ts = NewTimers(emitter)
@@ -80,7 +82,9 @@ func (d *vtMcrew) Snap() []int {
 	return d.snap()
 }
 
-func (d *vtMcrew) Issue(idx []int, in int) {
+func (d *vtMcrew) Issue(idx []int, in int) { d.issue(d.ctx, idx, in) }
+
+func (d *vtMcrew) issue(ctx context.Context, idx []int, in int) {
 	for _, i := range idx {
 		op := d.r.scn.Ops[i]
 		if op.A == "pause" {
@@ -93,21 +97,21 @@ func (d *vtMcrew) Issue(idx []int, in int) {
 		switch op.A {
 		case "add":
 			if d.r.scn.Glue {
-				err = d.svc.toTimers(d.ctx, map[string]interface{}{
+				err = d.svc.toTimers(ctx, map[string]interface{}{
 					"makeTimer": map[string]interface{}{
 						"id":      vtIdName(op.Id),
 						"in":      fmt.Sprintf("%dus", op.D),
 						"message": i,
 					}})
 			} else {
-				err = d.ts.Add(d.ctx, vtIdName(op.Id), i, time.Duration(op.D)*time.Microsecond)
+				err = d.ts.Add(ctx, vtIdName(op.Id), i, time.Duration(op.D)*time.Microsecond)
 			}
 			d.r.log(vtEvent{K: "add", T: t, T1: d.r.now(), Id: op.Id, D: op.D, Lbl: i, Ok: err == nil, In: in}, false)
 		case "rem":
 			if d.r.scn.Glue {
-				err = d.svc.toTimers(d.ctx, map[string]interface{}{"deleteTimer": vtIdName(op.Id)})
+				err = d.svc.toTimers(ctx, map[string]interface{}{"deleteTimer": vtIdName(op.Id)})
 			} else {
-				err = d.ts.Rem(d.ctx, vtIdName(op.Id))
+				err = d.ts.Rem(ctx, vtIdName(op.Id))
 			}
 			d.r.log(vtEvent{K: "rem", T: t, T1: d.r.now(), Id: op.Id, Ok: err == nil, In: in}, false)
 		}
